@@ -38,6 +38,7 @@ func init() {
 		"strings.HasPrefix":              sumHasPrefix,
 		"strings.Repeat":                 sumRepeat,
 		"strconv.Itoa":                   sumItoa,
+		"strconv.ParseInt":               sumParseInt,
 		"math.Abs":                       func(fr *frame, a []value) value { return fr.m.ctx.FAbs(a[0].(*Term)) },
 		"math.Trunc":                     func(fr *frame, a []value) value { return fr.m.ctx.FRound(a[0].(*Term), 0) },
 		"math.Floor":                     func(fr *frame, a []value) value { return fr.m.ctx.FRound(a[0].(*Term), 1) },
@@ -635,4 +636,24 @@ func sumConv(kind string) extFn {
 			return m.mkTime(sec, mkInt(64, 0))
 		}
 	}
+}
+
+func sumParseInt(fr *frame, a []value) value {
+	m := fr.m
+	base := m.concretize(a[1].(*Term), 4, "ParseInt base")
+	bits := m.concretize(a[2].(*Term), 4, "ParseInt bitSize")
+	errT := m.prog.rtErrType
+	if gs, ok := a[0].(Str).Concrete(); ok {
+		v, err := strconv.ParseInt(gs, int(base), int(bits))
+		if err != nil {
+			return tuple{mkInt(64, v), iface{t: errT, v: mkStr(err.Error())}}
+		}
+		return tuple{mkInt(64, v), iface{}}
+	}
+	// symbolic text: either it parses to some value or it does not
+	okv := m.ctx.Var(m.nondetName("strconv.ParseInt.ok"), SBool)
+	if m.branch(okv) {
+		return tuple{m.ctx.Var(m.nondetName("strconv.ParseInt.val"), SBV64), iface{}}
+	}
+	return tuple{mkInt(64, 0), iface{t: errT, v: Str{Opaque: true}}}
 }
